@@ -81,4 +81,24 @@ func init() {
 		},
 		Components: cliComponents, QuickMS: 35000, ThoroughMS: 1500000,
 	}
+	cfgs["C11"] = &propCfg{
+		ID: "C11", Engine: "lib", Level: "exploration",
+		Rule: "case = (host document built from templates with known payload spans: <script> with no/JS/module/ld+json/text/template type, <style>, style= and on*= attributes incl. javascript: prefix, inline <svg>/<math>, <iframe>, data: URIs (base64, percent-encoded, with parameters) in HTML attributes and CSS url(), SVG <style> text/CDATA/style=, HTML>SVG>CSS nesting; registry configuration: every embedded media type independently real / absent / recording stub / identity stub / stub failing on its n-th invocation after j bytes; optionally one payload the real minifier rejects). The host minifier is real and is called directly. Oracle over the recorded call history: each payload reaches the minifier registered for its type, with exactly the embedded bytes and inline=1 for attribute contexts, in document order, nothing else is dispatched; stub output appears in order in the outer output; real minifiers commute with standalone calls; absent => payload passes through and the call succeeds; failing stub => the outer call returns that error; real syntax error => parse.Error located inside the construct's span. distinct = distinct (host, configuration); non-trivial = the host has at least one embedded slot.",
+		Assumptions: []string{
+			"only the host<->embedded-minifier interaction through the registry seam is claimed, not the product space of host documents (that is input generation): hosts come from a template family",
+			"payloads avoid characters the host must re-escape, so substitution is checked by containment in document order; host re-escaping itself belongs to C03",
+			"the model of dispatch defaults is written from README.md / doc comments (script without type => application/javascript, style => text/css, iframe => text/html, attribute contexts inline=1)",
+		},
+		Components: libComponents, QuickMS: 15000, ThoroughMS: 600000,
+	}
+	cfgs["C10"] = &propCfg{
+		ID: "C10", Engine: "lib", Level: "exploration",
+		Rule: "case = (document of /repo's tests/corpora/benchmarks, optionally embedded in an HTML host; 1-3 stream faults from {truncate at k, drop / duplicate (up to 64x) / swap a chunk, flip or zero a byte, reader error after k bytes, writer failing from call k}, positions biased to markup characters, token interiors and the last bytes; entry point in {Minify, Bytes, String, Reader, Writer, direct package Minify}; default or extreme options: every Keep* flag, precisions -1, 0, 1, 20, +-2^30, MaxInt, MinInt). Oracles: no panic (recover in the task; a panic in a library goroutine kills the shard and is attributed), the call returns (scheduler deadlock/step budget; wall-clock watchdog confirmed by a solitary replay), Write calls and bytes <= 64*len+8192, Bytes/String return the caller's data unchanged when they report an error. distinct = distinct (document, delivered bytes, entry, options); every case is non-trivial (at least one fault).",
+		Assumptions: []string{
+			"only the hostile inputs and error paths that a misbehaving transport or collaborator produces from a corpus document are claimed, not 'all byte strings' (that is fuzzing, another family): deep-nesting bombs, adversarial numbers and arbitrary non-UTF-8 are reached only as far as chunk duplication and byte flips produce them",
+			"memory growth is not observable (Go has no allocator seam); time is observed only as scheduler steps, output volume and a generous wall-clock watchdog that must reproduce in a solitary replay before it is reported",
+			"when the call succeeds under a corrupting fault nothing is asserted about the output (the input simply was another document)",
+		},
+		Components: libComponents, QuickMS: 20000, ThoroughMS: 900000,
+	}
 }
